@@ -225,7 +225,7 @@ def run_case(ctx, kind_, idx):
         ctx.monitor("c05:cubic")
         e = tol.maxerr(ys[::n], y, mag)
         ctx.track_worst("cubic_at_originals_rel", e)
-        if e > tol.rel_for(x):
+        if not e <= tol.rel_for(x):
             ctx.violation("cubic_misses_original_points", cid, {"got": ys[::n], "want": y, "case": info})
             return
         nt = True
